@@ -1893,7 +1893,21 @@ impl FileSnapshotter<'_> {
         exec_bit: ExecBit,
         materialized_conflict_data: Option<MaterializedConflictData>,
     ) -> Result<MergedTreeValue, SnapshotError> {
-        if let Some(current_tree_value) = current_tree_values.as_resolved() {
+        // A directory whose content is conflicted shows up as a conflict between
+        // trees. No file is ever materialized for such a path, so a file found
+        // there replaced the directory and is snapshotted like any new file.
+        let replaced_conflicted_dir = !current_tree_values.is_resolved()
+            && current_tree_values
+                .iter()
+                .flatten()
+                .all(|value| matches!(value, TreeValue::Tree(_)));
+        let absent_value = None;
+        let current_tree_value = if replaced_conflicted_dir {
+            Some(&absent_value)
+        } else {
+            current_tree_values.as_resolved()
+        };
+        if let Some(current_tree_value) = current_tree_value {
             let id = self.write_file_to_store(repo_path, disk_path).await?;
             // On Windows, we preserve the executable bit from the current tree.
             let executable = exec_bit.for_tree_value(self.tree_state.exec_policy, || {
